@@ -345,8 +345,40 @@ pub fn gen_disc_case<R: Rng>(rng: &mut R) -> Case {
     Case { shape, t1: (f.m, f.t), t2: (t2.m, t2.t), tag: tag.to_string(), two_step: None, via_json: false }
 }
 
+/// Crystal-like configurations: both copies of a regular polygon turned so that edges are exactly
+/// horizontal or vertical, the second copy turned by a half turn (plus a multiple of the
+/// polygon's own angle) against the first and shifted so that a corner of one lies on a corner,
+/// or on an edge, of the other - what special positions of p2, p2mg, p2gg produce, and where
+/// every contact of an overlapping pair can be of the degenerate kind.
+pub fn gen_axis_aligned_case<R: Rng>(rng: &mut R) -> Option<Case> {
+    let n = [3usize, 4, 5, 6, 6, 8, 10, 12][rng.gen_range(0, 8)];
+    let shape = ShapeSpec::Polygon { sides: n };
+    let v: Vec<[f64; 2]> = match shape.line().map(|l| l.oshape()) {
+        Some(crate::oracle::geom::OShape::Poly(v)) => v,
+        _ => return None,
+    };
+    let e0 = [v[1][0] - v[0][0], v[1][1] - v[0][1]];
+    let alpha = e0[1].atan2(e0[0]);
+    let phi1 = -alpha + rng.gen_range(0, 4) as f64 * PI / 2. + rng.gen_range(0, n) as f64 * 2. * PI / n as f64;
+    let phi2 = phi1 + PI + rng.gen_range(0, n) as f64 * 2. * PI / n as f64;
+    let (m1, m2) = (rot(phi1), rot(phi2));
+    let t1 = match rng.gen_range(0, 3) {
+        0 => [0., 0.],
+        1 => [rng.gen_range(-5., 5.), rng.gen_range(-5., 5.)],
+        _ => [rng.gen_range(0, 9) as f64 * 0.125, rng.gen_range(0, 9) as f64 * 0.25],
+    };
+    let (a, b) = (rng.gen_range(0, n), rng.gen_range(0, n));
+    // a point of copy 1: corner a, or a point on the edge from corner a
+    let s = [0., 0., 0., 0.5, 0.25, 0.3][rng.gen_range(0, 6)];
+    let pa = [v[a][0] + s * (v[(a + 1) % n][0] - v[a][0]), v[a][1] + s * (v[(a + 1) % n][1] - v[a][1])];
+    let p1 = apply(&m1, pa);
+    let p2 = apply(&m2, v[b]);
+    let t2 = [t1[0] + p1[0] - p2[0], t1[1] + p1[1] - p2[1]];
+    Some(Case { shape, t1: (m1, t1), t2: (m2, t2), tag: "axis-aligned-twin".into(), two_step: None, via_json: false })
+}
+
 pub fn run(ctx: &Ctx) {
-    ctx.set_rule("two placed copies of one shape (regular 3..12-gons and occasionally 64..512-gons, convex radial polygons, circle, trimers): random relative placements and constructed alignments (coincident, parallel edges slid along an edge with face contact at 2 r_in (1 +- {0,1e-12,1e-7,1e-3}), shared vertex, vertex on edge, mirror images, disc contact at (r1+r2)(1 +- ...)), each under base frames {identity, k pi/4, random, 100-1000 from the origin, reflected}; 15% of the copies are placed in two steps (a placed copy transformed again), 5% are passed through JSON first; library answer (both argument orders) vs separating-axis depth / centre distance computed from the library-placed coordinates; required only when |depth| > 1e-9; non-trivial = |depth| < 0.1 or any constructed alignment; distinct by quantised (shape, construction, depth, offset)");
+    ctx.set_rule("two placed copies of one shape (regular 3..12-gons and occasionally 64..512-gons, convex radial polygons, circle, trimers): random relative placements and constructed alignments (coincident, parallel edges slid along an edge with face contact at 2 r_in (1 +- {0,1e-12,1e-7,1e-3}), shared vertex, vertex on edge, mirror images, axis-aligned twins (edges exactly horizontal/vertical, second copy a half turn on, corner on corner or on an edge), disc contact at (r1+r2)(1 +- ...)), each under base frames {identity, k pi/4, random, 100-1000 from the origin, reflected}; 15% of the copies are placed in two steps (a placed copy transformed again), 5% are passed through JSON first; library answer (both argument orders) vs separating-axis depth / centre distance computed from the library-placed coordinates; required only when |depth| > 1e-9; non-trivial = |depth| < 0.1 or any constructed alignment; distinct by quantised (shape, construction, depth, offset)");
     ctx.assume("convex polygons only (separating-axis theorem); non-convex radial shapes are skipped");
     let n = ctx.tier.pick(40_000u64, 4_000_000u64);
     par_shards(ctx, 12, 64, |_, rng, st| {
@@ -358,6 +390,11 @@ pub fn run(ctx: &Ctx) {
             }
             c.via_json = rng.gen_bool(0.05);
             check(&c, st);
+        }
+        for _ in 0..n * 4 {
+            if let Some(c) = gen_axis_aligned_case(rng) {
+                check(&c, st);
+            }
         }
     });
     ctx.set_min_nontrivial(10_000);
